@@ -207,7 +207,14 @@ func NormalizeDateString(in string) (string, error) {
 	if err != nil {
 		return "", err
 	}
-	return t.UTC().Format(RFC3339NanoNoZ), nil
+	t = t.UTC()
+	// Only four-digit years have a fixed-width rendering (cf. Time.MarshalText);
+	// a zone offset can move a parsed date across either end of that range, and
+	// the resulting strings would no longer sort chronologically.
+	if y := t.Year(); y < 0 || y > 9999 {
+		return "", fmt.Errorf("date %q: year %d in UTC is outside of range [0,9999]", in, y)
+	}
+	return t.Format(RFC3339NanoNoZ), nil
 }
 
 // ParseNormalizedDateString parses a time in the format returned by
